@@ -193,6 +193,55 @@ fn matrices(r: &mut Rng) {
         s.put(b.into_col_arrays());
         s.put(a[(1, 2)]);
         s.put(b[(1, 2)]);
+        // writes through IndexMut / in-place forms, every size and both layouts (a feature must not change where a write lands)
+        {
+            let (mut a2, mut b2) = (a, b);
+            a2[(1, 2)] = 7.5;
+            a2[(3, 0)] = -2.25;
+            b2[(1, 2)] = 7.5;
+            b2[(3, 0)] = -2.25;
+            s.put(a2);
+            s.put(b2);
+            s.put(a2.into_row_array());
+            s.put(b2.into_row_array());
+            s.put((a2[(1, 2)], a2[(2, 1)], b2[(1, 2)], b2[(2, 1)], a2[(3, 0)], b2[(0, 3)]));
+            a2.transpose();
+            b2.transpose();
+            s.put(a2);
+            s.put(b2);
+            a2 *= a;
+            b2 *= b;
+            a2 += a;
+            b2 -= b;
+            a2 *= 0.5;
+            s.put(a2);
+            s.put(b2);
+            let (mut a3, mut b3) = (rm::Mat3::from(a), cm::Mat3::from(b));
+            a3[(0, 2)] = 1.25;
+            a3[(2, 1)] = -4.0;
+            b3[(0, 2)] = 1.25;
+            b3[(2, 1)] = -4.0;
+            s.put(a3);
+            s.put(b3);
+            s.put((a3.into_row_array(), b3.into_row_array(), a3.into_col_array(), b3.into_col_array()));
+            let (mut a4, mut b4) = (rm::Mat2::from(a), cm::Mat2::from(b));
+            a4[(0, 1)] = 9.0;
+            b4[(0, 1)] = 9.0;
+            b4[(1, 0)] = -9.0;
+            s.put(a4);
+            s.put(b4);
+            s.put((a4.into_row_array(), b4.into_row_array()));
+            let mut w = v;
+            w[2] = 3.5;
+            w[0] += 1.0;
+            s.put(w);
+            let mut t2 = a;
+            t2.invert();
+            s.put(t2);
+            let mut t3 = b;
+            t3.invert();
+            s.put(t3);
+        }
         s.put(a.trace());
         s.put(a.diagonal());
         s.put(rm::Mat3::from(a));
